@@ -21,7 +21,7 @@ def generate(tier, seed):
     for name in sources.PROTEINS:
         for k in KINDS:
             cases.append({"kind": "file", "file": name, "relabel": k, "seed": "%d:%s:%s" % (seed, name, k), "cost": 120})
-    n = 750 if tier == "quick" else 5000
+    n = 750 if tier == "quick" else 25000
     for k in range(n):
         cases.append({"kind": ("cutout", "chimera", "twins")[k % 3], "relabel": KINDS[(k // 3) % 3],
                       "seed": "%d:c:%d" % (seed, k), "cost": 14})
